@@ -4,6 +4,7 @@ import (
 	"bufio"
 	"context"
 	"fmt"
+	"github.com/lmorg/murex/utils/verifhook"
 	"io"
 
 	"github.com/lmorg/murex/config"
@@ -14,8 +15,10 @@ import (
 // Read is the standard Reader interface Read() method.
 func (stdin *Stdin) Read(p []byte) (i int, err error) {
 	for {
+		verifhook.Gate(stdin, "r.check")
 		select {
 		case <-stdin.ctx.Done():
+			verifhook.Emit(stdin, "r.cancel", "")
 			return 0, io.EOF
 		default:
 		}
@@ -23,6 +26,7 @@ func (stdin *Stdin) Read(p []byte) (i int, err error) {
 		stdin.mutex.Lock()
 		l := len(stdin.buffer)
 		deps := stdin.dependents
+		verifhook.Emit(stdin, "r.check", "", int64(l), int64(deps))
 		stdin.mutex.Unlock()
 
 		if l == 0 {
@@ -36,6 +40,7 @@ func (stdin *Stdin) Read(p []byte) (i int, err error) {
 		break
 	}
 
+	verifhook.Gate(stdin, "r.take")
 	stdin.mutex.Lock()
 
 	if len(p) >= len(stdin.buffer) {
@@ -52,6 +57,7 @@ func (stdin *Stdin) Read(p []byte) (i int, err error) {
 	}
 
 	stdin.bRead += uint64(i)
+	verifhook.Emit(stdin, "r.take", "", int64(i), int64(stdin.bRead), int64(len(stdin.buffer)))
 	stdin.mutex.Unlock()
 
 	return i, err
@@ -75,19 +81,24 @@ func (stdin *Stdin) ReadLine(callback func([]byte)) error {
 
 // ReadAll reads everything and dump it into one byte slice.
 func (stdin *Stdin) ReadAll() ([]byte, error) {
+	verifhook.Gate(stdin, "ra.start")
 	stdin.mutex.Lock()
 	stdin.max = 0
+	verifhook.Emit(stdin, "max0", "")
 	stdin.mutex.Unlock()
 
 	for {
+		verifhook.Gate(stdin, "ra.wait")
 		select {
 		case <-stdin.ctx.Done():
+			verifhook.Emit(stdin, "ra.cancel", "")
 			goto read
 		default:
 		}
 
 		stdin.mutex.Lock()
 		closed := stdin.dependents < 1
+		verifhook.Emit(stdin, "ra.wait", "", int64(stdin.dependents))
 		stdin.mutex.Unlock()
 
 		if closed {
@@ -97,8 +108,10 @@ func (stdin *Stdin) ReadAll() ([]byte, error) {
 	}
 
 read:
+	verifhook.Gate(stdin, "ra.take")
 	stdin.mutex.Lock()
 	stdin.bRead = uint64(len(stdin.buffer))
+	verifhook.Emit(stdin, "ra.take", "", int64(len(stdin.buffer)), int64(stdin.bRead))
 	b := stdin.buffer
 	stdin.mutex.Unlock()
 	return b, nil
